@@ -166,6 +166,15 @@ pub fn run(ctx: &mut Ctx) {
             ctx.count("evaluations", 1);
             ctx.count("node_values_checked", obs.values_checked);
             ctx.count("stray_bit_arrays_seen", obs.stray_bits);
+            // the unchanged tree never produces padding bits (0 of > 10^6 bit-array values observed),
+            // so a value with non-zero padding bits is reported
+            for o in obs.stray_ops.iter().take(1) {
+                ctx.violation(
+                    &format!("C09|stray_bits|{}", o),
+                    json!({"what": format!("{} produced a bit array whose unused padding bits are not zero", o), "ops": prog.ops,
+                           "context": serde_json::to_string(&prog.ctx).unwrap_or_default()}),
+                );
+            }
             for e in obs.type_errors.iter().take(2) {
                 let opname = e.split("op ").nth(1).unwrap_or("?").split(' ').next().unwrap_or("?").to_string();
                 ctx.violation(
